@@ -59,8 +59,8 @@ func HandleSegmentShardRequestWithJustification(bc blockchain.Blockchain, stream
 	}
 
 	rest := payload[CE139140MinRequestSize:]
-	if len(rest) < int(segmentIndicesLen)*SegmentIndexSize {
-		return errors.New("segment shard request truncated")
+	if len(rest) != int(segmentIndicesLen)*SegmentIndexSize {
+		return errors.New("segment shard request length does not match its index count")
 	}
 	segmentIndices := make([]uint16, segmentIndicesLen)
 	for i := uint16(0); i < segmentIndicesLen; i++ {
